@@ -21,6 +21,7 @@ SMOKE = [
     ('ChoiceMatch', 'MC_ChoiceMatch_fixed.cfg', None),
     ('SelectCandidates', 'MC_SelectCandidates.cfg', None),
     ('SelectCandidates', 'MC_SelectCandidates_prefix.cfg', 'Disjoint'),
+    ('GenerateDates', 'MC_GenerateDates_timeofday.cfg', 'MeetsContract'),
 ]
 
 
